@@ -114,6 +114,19 @@ CLAIMED = {
              "Tie: as C13 with the call alphabets poll_next and poll_ready/start_send/poll_flush/poll_close incl. error results.",
         note="fastrace-futures has no tests in the pinned suite; everything here is new coverage.",
         design="§4 C14"),
+
+    "C15": dict(
+        technique="Lean 4: decision-logic theorems of the attribute macro (rejection table, name expression, wrapper choice, unescape_format_string); wrapper semantics by C10/C13; translation-style differential: annotated/plain twin functions compiled with the real macro and compared on results, side effects, panics, recorded spans; Lean decision model compared with the real macro's observable decisions",
+        text="Kernel-checked: C15_rejections, C15_name, C15_wrapper, C15_unescape_plain, C15_unescape_format_unchanged, C15_unescape_examples; the run-time behaviour of the three wrappers is C10_frame (LocalSpan guard), C13 (in_span / enter_on_poll). "
+             "Tie: twins over sync / async (with and without a Pending poll) / generic / lifetime / &self,&mut self,self methods / async methods / async-trait impls × attribute forms × bodies (plain, early return, `?`, panic) are generated from the seed, compiled against /repo's macro and executed with and without a local parent: equal return values, side-effect logs and unwind payloads; exactly one span (one per poll with enter_on_poll) with the configured/short/func_path!() name, the configured properties with format strings evaluated, parent = the caller's local parent; nothing without a local parent.",
+        note="Partial by nature: that the expansion equals 'wrapper around the unchanged body' for all Rust functions is validated on generated twins, not proved (no Lean semantics of Rust). Rejections of malformed attributes are covered by the repository's trybuild ui test (baseline) and by C15_rejections on the model.",
+        design="§4 C15"),
+    "C18": dict(
+        technique="Lean 4: duration/begin formulas of the collector, strictly increasing logical clock, finish-after-begin, begin instants strictly increasing along a scope's queue, elapsed(); relational tie: every API call bracketed by monotonic and wall-clock readings, window checks on every delivered record",
+        text="Kernel-checked: C18_duration_span, C18_duration_local (open spans end at collection time), C18_begin_plus_duration (monotone conversion), C18_clock_strict, C18_finish_after_begin, C18_queue_begins_increase, C18_elapsed. "
+             "Tie: the harness brackets every call with std Instant / SystemTime readings; per delivered record: duration within the window between creating and finishing call, begin inside the creating call's wall-clock window, event timestamps inside the span's interval, local children inside local parents and siblings disjoint (same report = same anchor), elapsed() in its window; and the implementation's zero/non-zero durations agree with the model's clock readings.",
+        note="Partial: the real clock cannot be injected, so model instants and real instants are related through windows, not equated; fastant's conversion is assumed monotone and its TSC consistent across cores. Interval containment of nested local spans is checked on the implementation and follows in the model from C18_queue_begins_increase + LIFO closing (C10), not yet stated as one theorem.",
+        design="§4 C18"),
 }
 
 REASON_PENDING = "not claimed yet in this revision: model/harness slice for this property is still being built (see DESIGN.md §6 work order)"
